@@ -9,11 +9,13 @@ CONSTANTS
   SelLen = 8
   SimLevel = 2
   LabelRefLen = 4
+  FormLevel = 2
 INVARIANT InvKmers
 INVARIANT InvMask
 INVARIANT InvTable
 INVARIANT InvSimilar
 INVARIANT InvSelTab
+INVARIANT InvForms
 INVARIANT InvMini
 INVARIANT InvSelect
 CHECK_DEADLOCK FALSE
